@@ -257,7 +257,7 @@ func GenBackendScenario(seed uint64, tier string) *Scenario {
 				case "s3":
 					op.F = "put-error"
 				case "file":
-					op.F = "missing-dir"
+					op.F = []string{"missing-dir", "base-is-file"}[g.Intn(2)]
 				}
 				if _, ok := written[name]; ok && op.F != "" {
 					// a failed first write leaves the name unwritten for the model
@@ -425,6 +425,15 @@ func (w *World) runBackendSequential(sc *Scenario, insts []*beInstance) {
 					target = mastfile.NewPersistForPath(filepath.Join(dir, "no-such-subdir"))
 					injected = true
 					w.st.Faults["fs-missing-directory"]++
+				}
+			case "base-is-file":
+				if dir != "" {
+					// the configured base path is a regular file: every path below it fails with ENOTDIR
+					fp := filepath.Join(dir, ".not-a-directory")
+					os.WriteFile(fp, []byte("x"), 0o644)
+					target = mastfile.NewPersistForPath(fp)
+					injected = true
+					w.st.Faults["fs-base-path-is-a-file"]++
 				}
 			}
 			r := guard(func() error { return target.Store(ctx, name, append([]byte(nil), payload...)) })
